@@ -7,6 +7,7 @@ CBMC (CaDiCaL, --stop-on-fail --trace) produces an assignment; the values of eve
 trace in call order and written, in Kani's concrete-playback format, into a stand-alone replay crate (concrete skeleton
 table instead of the FFI hook). `cargo kani playback` then executes the harness NATIVELY against the real rrtk build;
 only a natively failing replay is reported as a VIOLATION."""
+import glob
 import json
 import os
 import re
@@ -116,7 +117,7 @@ def hunt(crate, r, ctx):
         sk_impl = driver.sk_const(r.skeleton if r.skeleton is not None else ())
         lib = _crate_source(part, sk_impl, grid, tol, extra_test=playback_test(h.name, vals))
         rep_dir = save_replay(ctx.prop_id, r, hc, lib, label, failed, vals)
-        ok, rout = native_replay(rep_dir)
+        ok, rout = native_replay(rep_dir, memcheck=bool(MEMORY_CLASS.search(failed[0])))
         shutil.rmtree(jd, ignore_errors=True)
         if ok:
             return {"verdict": "violation", "replay": rep_dir, "failed": failed, "mode": label}
@@ -144,8 +145,14 @@ def save_replay(pid, r, hc, lib, label, failed, vals):
     return d
 
 
-def native_replay(rep_dir, timeout=900):
-    """Run the playback test natively (dev profile, the one Kani models). True = the test fails (reproduced)."""
+MEMORY_CLASS = re.compile(r"deallocated dynamic object|dead object|pointer invalid|pointer outside object bounds|pointer NULL")
+
+
+def native_replay(rep_dir, timeout=900, memcheck=False):
+    """Run the playback test natively (dev profile, the one Kani models). True = the test fails (reproduced).
+    memcheck=True (CBMC reported a memory-safety failure): a natively PASSING test is re-run under valgrind memcheck,
+    because a use-after-free usually reads stale but still mapped memory; an invalid read/write reported by memcheck
+    counts as reproduced."""
     lock = os.path.join(core.REPO, "Cargo.lock")
     if os.path.exists(lock):
         shutil.copy(lock, os.path.join(rep_dir, "Cargo.lock"))
@@ -153,6 +160,14 @@ def native_replay(rep_dir, timeout=900):
     rc, out, _ = core.run(["cargo", "kani", "playback", "-Z", "concrete-playback", "--", "kani_concrete_playback"],
                           timeout=timeout, cwd=rep_dir, limit=False, env=env)
     reproduced = rc != 0 and "test result: FAILED" in out and "kani_concrete_playback" in out
+    if not reproduced and memcheck and "test result: ok" in out:
+        bins = sorted(glob.glob(os.path.join(env["CARGO_TARGET_DIR"], "**", "vk_replay-*"), recursive=True), key=os.path.getmtime)
+        bins = [b for b in bins if os.access(b, os.X_OK) and not b.endswith(".d")]
+        if bins:
+            rc2, out2, _ = core.run(["valgrind", "--error-exitcode=9", "--quiet", bins[-1], "kani_concrete_playback", "--test-threads=1"], timeout=timeout, cwd=rep_dir, limit=False)
+            if rc2 == 9 or "Invalid read" in out2 or "Invalid write" in out2:
+                reproduced = True
+                out = out + "\n[valgrind memcheck]\n" + core._tail(out2, 20)
     try:
         os.remove(os.path.join(rep_dir, "Cargo.lock"))
     except OSError:
@@ -164,7 +179,12 @@ def replay_cmd(pid, path):
     if not os.path.isdir(path):
         print("replay path not found: " + path)
         return 2
-    ok, out = native_replay(path)
+    memc = False
+    try:
+        memc = any(MEMORY_CLASS.search(f) for f in json.load(open(os.path.join(path, "replay.json"))).get("failed_checks", []))
+    except Exception:
+        pass
+    ok, out = native_replay(path, memcheck=memc)
     print(core._tail(out, 25))
     if ok:
         print("VIOLATION property=%s replay=%s" % (pid, path))
